@@ -110,6 +110,28 @@ def arg_rename_in_place(node):
     return False
 
 
+def has_private_names(classdef):
+    """
+    Does this class use any private names
+
+    Names that start with two underscores are mangled with the name of the class they are used in,
+    so the class must keep its name for them to stay the same.
+
+    :param classdef: The class to search
+    :type classdef: :class:`ast.ClassDef`
+    :rtype: bool
+
+    """
+
+    for node in ast.walk(classdef):
+        for field in ['id', 'attr', 'name', 'arg']:
+            name = getattr(node, field, None)
+            if isinstance(name, str) and name.startswith('__') and not name.endswith('__'):
+                return True
+
+    return False
+
+
 def insert(suite, new_node):
     """
     Insert a node into a suite
